@@ -227,3 +227,19 @@ void run_case(ByteSource& s, CaseInfo& ci) {
   ci.sample = samp;
 }
 void enumerate(const Emit&, const std::string&) {}
+
+// fixed findings 1fa82e3 (every non-diagonal 2x2 exponential threw) and 36de8f6 (order-9 approximant without its A^8 terms)
+void regressions() {
+  CaseInfo ci;
+  { ExpCase c; c.n = 2; c.cls = 6; c.has_exact = false; c.has_cond = false; c.cond_bound = 0; c.target = 0.01; c.A = Mat(2); c.A.a[0][1] = cld(0.01, 0); check_exp(c, ci, nullptr, nullptr); }
+  { ExpCase c; c.n = 2; c.cls = 6; c.has_exact = false; c.has_cond = false; c.cond_bound = 0; c.target = 42; c.A = Mat(2); c.A.a[0][0] = cld(0.44599101574316302, 0); c.A.a[0][1] = cld(41.994924149057375, 0); check_exp(c, ci, nullptr, nullptr); }
+  for (int n = 2; n <= 6; n++) for (double nrm : {1.0, 1.5, 2.0, 3.0}) {  // the order-9 band in every dimension
+    ExpCase c; c.n = n; c.cls = 2; c.has_exact = false; c.has_cond = false; c.cond_bound = 0; c.target = nrm; Mat B(n);
+    for (int i = 0; i < n; i++) for (int j = 0; j < n; j++) B.a[i][j] = cld(std::sin(1.0 + i + 2.0 * j), std::cos(0.5 + 3.0 * i - j));
+    c.A = round_to_double(scale(B, cld((ld)nrm / norm1(B), 0)));
+    check_exp(c, ci, nullptr, nullptr);
+  }
+  SU_vector a(2), v(2); a[1] = 0.3; a[3] = -0.2; v[1] = 0.7; v[2] = 0.1;
+  SU_vector r = a.UTransform(v, gsl_complex_rect(0, 0.5));
+  CHECK(std::isfinite(r[1]) && fabs((r * r) - (a * a)) < 1e-13, "C07|UTransform|regression|d=2", "UTransform in dimension 2");
+}
